@@ -6,7 +6,7 @@ CONSTANTS MaxDepth = 3
           MvDsts <- PMvDsts
           DataSet <- PDataSet
           Offs = {}
-          Sizes = {1}
+          Sizes = {1, 3}
           Modes = {1}
           Times = {2}
           OpenDevs = @OPEN@
@@ -15,5 +15,5 @@ CONSTANTS MaxDepth = 3
           Names = {"a", "f"}
           D = 4
           E = 0
-          PresetSet = {4}
+          PresetSet = {4, 5}
 INVARIANTS EmitProbe
